@@ -106,3 +106,14 @@ Theorem C18_hypotheses_needed :
      exists bs, cm_encode_bk Native [EItem [x61] c] = Some bs /\ cm_decode bs <> Some [EItem [x61] c]).
 Proof. exact hypotheses_needed. Qed.
 Print Assumptions C18_hypotheses_needed.
+
+(* "decode then encode reproduces the bytes" does NOT extend to arbitrary input bytes: the decoder accepts non-canonical
+   spellings (a table name written out as a custom name; typed entries and authentication types likewise) and truncated
+   last entries, and re-encoding gives different bytes.  C18_reencode (bytes produced by encode) is the true statement. *)
+Theorem C18_reencode_arbitrary_refuted :
+  (exists bs items, cm_decode bs = Some items /\ exists bs', cm_encode items = Some bs' /\ bs' <> bs /\
+                    bs = x07 :: ascii "text/css" ++ [x00; x00; x01; x61]) /\
+  (exists bs items, cm_decode bs = Some items /\ exists bs', cm_encode items = Some bs' /\ bs' <> bs /\
+                    bs = [x00; x61; x00; x00; x05; x62; x63]).
+Proof. exact reencode_arbitrary_refuted. Qed.
+Print Assumptions C18_reencode_arbitrary_refuted.
